@@ -240,6 +240,38 @@ func (in *instr) accessesIn(n ast.Node, writes map[*ast.Ident]bool) []access {
 	if n == nil {
 		return nil
 	}
+	// identifiers whose ADDRESS is taken, not their value: &v, and v.m() with a pointer-receiver method on an
+	// addressable (non-pointer) v. Nothing is read at that point; the object is accessed where it is touched.
+	addrOnly := map[*ast.Ident]bool{}
+	ast.Inspect(n, func(x ast.Node) bool {
+		switch t := x.(type) {
+		case *ast.BlockStmt, *ast.FuncLit:
+			return false
+		case *ast.UnaryExpr:
+			if t.Op == token.AND {
+				if id := rootIdent(t.X); id != nil {
+					addrOnly[id] = true
+				}
+			}
+		case *ast.CallExpr:
+			if sel, ok := t.Fun.(*ast.SelectorExpr); ok {
+				if s := in.info.Selections[sel]; s != nil && s.Kind() == types.MethodVal {
+					if sig, ok := s.Obj().Type().(*types.Signature); ok && sig.Recv() != nil {
+						if _, ptr := sig.Recv().Type().(*types.Pointer); ptr {
+							if tv, ok := in.info.Types[sel.X]; ok {
+								if _, isPtr := tv.Type.Underlying().(*types.Pointer); !isPtr {
+									if id := rootIdent(sel.X); id != nil {
+										addrOnly[id] = true
+									}
+								}
+							}
+						}
+					}
+				}
+			}
+		}
+		return true
+	})
 	ast.Inspect(n, func(x ast.Node) bool {
 		switch t := x.(type) {
 		case *ast.BlockStmt, *ast.FuncLit:
@@ -250,6 +282,9 @@ func (in *instr) accessesIn(n ast.Node, writes map[*ast.Ident]bool) []access {
 				return false
 			}
 		case *ast.Ident:
+			if addrOnly[t] && !writes[t] {
+				return true
+			}
 			if id, ok := in.pkgVarOf(t); ok {
 				out = append(out, access{id, writes[t], t.Pos(), nil})
 			} else if in.recvObj != nil && in.info.Uses[t] == in.recvObj {
